@@ -328,6 +328,23 @@ def numeral_goals():
         for fin in finals:
             for ar in arg_sets:
                 g.append(('intros', list(ar), ins + [fin]))
+    # forall_elim_gen on quantified premises that carry a redex of their own, instantiated by variables / numerals / abstractions
+    from kernel.term import Lambda, Comb
+    xn, yn, an, bn = Var('x', NatType), Var('y', NatType), Var('a', NatType), Var('b', NatType)
+    hN = Var('h', TFun(NatType, NatType))
+    qprems = [Forall(xn, Eq(Comb(Lambda(yn, yn + Nat(1)), xn), bn)), Forall(xn, Eq(hN(Comb(Lambda(yn, yn), xn)), xn)), Forall(xn, Eq(xn + Nat(0), xn)),
+              Forall(hN, Eq(hN(Comb(Lambda(yn, yn), an)), hN(an))), Forall(hN, Eq(hN(an), hN(an)))]
+    for qp in qprems:
+        v = qp.arg.var_T
+        insts = [an, Nat(2), an + Nat(1), Comb(Lambda(yn, yn), an)] if v == NatType else [hN, Lambda(yn, yn + Nat(1)), Lambda(yn, Comb(Lambda(xn, xn), yn))]
+        for t in insts:
+            g.append(('forall_elim_gen', t, [Thm(qp, qp)]))
+            g.append(('forall_elim_gen', t, [Thm(qp)]))
+    # fun_upd_eval with keys that are not two distinct numerals
+    for key, arg in ((xn, yn), (Nat(1) + Nat(1), Nat(2)), (xn, Nat(2)), (Nat(2), xn), (xn, xn), (Nat(2), Nat(1) + Nat(1)), (xn + Nat(0), xn)):
+        g.append(('fun_upd_eval', mk_fun_upd(f, key, Nat(5))(arg), []))
+        g.append(('fun_upd_eval', mk_fun_upd(f, Nat(3), Nat(4), key, Nat(5))(arg), []))
+        g.append(('fun_upd_eval', Eq(mk_fun_upd(f, key, Nat(5))(arg), f(arg)), []))
     _N['g'] = g
     return g
 
